@@ -25,8 +25,6 @@ def q_alphabet(P, T, VK):
     for i in range(P):
         for j in range(i, P):
             ops.append(("sw", i, j))          # i == j: swap with itself
-    for i in range(P):
-        ops.append(("au", i, T - 1))          # adopt a base-type unique_ptr through the re-exported operator=
     ops += [("vg",), ("vc",), ("vo",)]
     for k in range(VK):
         ops.append(("ve", k))
@@ -49,7 +47,7 @@ def q_applicable(st, op):
         return op[1] < len(live) and op[2] < len(live) and (not live[op[1]]) and live[op[2]]
     if k in ("ma", "sw"):
         return op[1] < len(live) and op[2] < len(live) and live[op[1]] and live[op[2]]
-    if k in ("rs", "dr", "vp", "an", "au"):
+    if k in ("rs", "dr", "vp", "an"):
         return op[1] < len(live) and live[op[1]]
     if k == "dc":
         return op[1] < len(live) and not live[op[1]]
@@ -172,7 +170,7 @@ class C18(Check):
     rule = ("quaint_ptr: every applicable operation sequence of depth 4 on a pool of 2 pointers and of depth 3 on a pool of 3 (thorough: "
             "also depth 4 on a pool of 3 and depth 4 on a pool of 2 with 3 types) "
             "over {make<T>, default-construct, move-construct, move-assign (incl. self), reset, p = nullptr (also on a vector "
-            "element), std::swap (incl. with itself), assignment of a base-type unique_ptr through the re-exported operator=, destroy, "
+            "element), std::swap (incl. with itself), destroy, "
             "push_back(move), reserve, pop_back, erase in the middle, clear, move out of vector} + one std::vector<quaint_ptr>, then random sequences of length 12-20 (biased to "
             "applicable operations) and fully random ones (inapplicable operations must be skipped identically); optional: every "
             "sequence of depth 3 over {assign value, construct from value, copy-assign (incl. self), copy-construct, assign empty, "
